@@ -88,7 +88,7 @@ CHECKS["C14"] = dict(
 CHECKS["C08"] = dict(
     category="model_checking",
     technique="deviation-bounded schedule/transport exploration (DX) of the receive-side end-of-stream mechanism on real sessions, plus loopback propagation cases through the real forwarding loops (SEMI/LX)",
-    text="Receive side (both roles): 0..3 data frames then FIN, reader blocked / arriving later / holding a partly consumed chunk, 5 read-buffer sizes, optional sibling stream, short reads straddling the FIN header and <= 2 (3) scheduling deviations; the reader must see end-of-stream after exactly the bytes sent before the FIN, the sibling and the opposite direction keep working, the session tables drop the id. Propagation: a target that sends M bytes and closes / half-closes behind the real TcpProxyHandler, and an application that sends N bytes and closes / half-closes through the real SOCKS5 and HTTP CONNECT front-ends over TLS; the opposite endpoint must see end-of-stream after exactly those bytes. Receive side also with zero-length read calls and with another task inside open_stream() while the FIN is handled.",
+    text="Receive side (both roles): 0..3 data frames then FIN, reader blocked / arriving later / holding a partly consumed chunk, 5 read-buffer sizes, optional sibling stream, short reads straddling the FIN header and <= 2 (3) scheduling deviations; the reader must see end-of-stream after exactly the bytes sent before the FIN, the sibling and the opposite direction keep working, the session tables drop the id. Propagation: a target that sends M bytes and closes / half-closes behind the real TcpProxyHandler, and an application that sends N bytes and closes / half-closes through the real SOCKS5 and HTTP CONNECT front-ends over TLS; the opposite endpoint must see end-of-stream after exactly those bytes. Receive side also with another task calling close() on the session while the FIN is handled (<= 2 (3) deviations: the reader must terminate having read a prefix), with zero-length read calls and with another task inside open_stream() while the FIN is handled.",
     note="Trusted: scripted peer for the receive side; real time and a 3 s wait to conclude 'never observes end-of-stream' in the propagation part (cannot accuse correct code on loopback). The send side is an open known finding (no FIN is ever emitted), keyed per call site.",
     design="DESIGN.md §6 C08",
 )
